@@ -8,6 +8,7 @@ import (
 	"fmt"
 	"os"
 	"path/filepath"
+	"regexp"
 	"sort"
 	"strings"
 )
@@ -102,7 +103,7 @@ func runMutant(repo, verif string, m Mutant, bl *Baseline) (bool, string) {
 	}
 	var sel []*Oblig
 	for _, o := range pr.obligs {
-		if strings.Contains(o.Name, m.Expect) {
+		if strings.Contains(o.Name, m.Expect) || strings.Contains(unsplitName(o.Name), m.Expect) {
 			sel = append(sel, o)
 		}
 	}
@@ -121,3 +122,9 @@ func runMutant(repo, verif string, m Mutant, bl *Baseline) (bool, string) {
 	}
 	return false, "every obligation matching " + m.Expect + " still discharges"
 }
+
+var splitSuffix = regexp.MustCompile(`\.\d+\]`)
+
+// unsplitName maps post[label.2]@return#1 to post[label]@return#1 (conjuncts of one clause are
+// separate obligations; a mutant names the clause).
+func unsplitName(n string) string { return splitSuffix.ReplaceAllString(n, "]") }
